@@ -328,7 +328,7 @@ theorem C10_repair_frame (env : Env) (hok : EnvOk env) (t : Tree) (path : Path) 
     (ks : List Tree) (hat : t.at? path = some (.node (.element name) ks))
     (hu : UniqueBelow (.node (.element name) ks)) (env' : Env) (t' : Tree)
     (h : createMissingPrefixes env t path = .ok (env', t')) :
-    stripNs t' = stripNs t ∧ env'.names = env.names ∧ env'.namespaces = env.namespaces := by
+    Repair.stripNs t' = Repair.stripNs t ∧ env'.names = env.names ∧ env'.namespaces = env.namespaces := by
   rw [C10_repair_element env t path name ks hat] at h
   have hf := repairElement_facts env hok t path name ks hat hu env' t' h
   exact ⟨facts_frame hat hf, hf.names, hf.namespaces⟩
@@ -415,7 +415,7 @@ theorem C10_repair_document_frame (env : Env) (hok : EnvOk env) (t : Tree) (path
     (hat : t.at? path = some doc) (hdoc : doc.value.isDocument = true)
     (hu : ∀ (i : Nat) (k : Tree), doc.kids[i]? = some k → k.value.isElement = true → UniqueBelow k)
     (env' : Env) (t' : Tree) (h : createMissingPrefixes env t path = .ok (env', t')) :
-    stripNs t' = stripNs t ∧ env'.names = env.names ∧ env'.namespaces = env.namespaces ∧
+    Repair.stripNs t' = Repair.stripNs t ∧ env'.names = env.names ∧ env'.namespaces = env.namespaces ∧
       EnvOk env' ∧ (UniqueBelow t → UniqueBelow t') := by
   have hf := document_facts env hok t path doc hat hdoc hu env' t' h
   exact ⟨hf.frame, hf.names, hf.namespaces, hf.envOk, hf.unique⟩
@@ -486,7 +486,7 @@ theorem C10_iter_invariant (s : Env × Tree) (h : RepairReachable s) : EnvOk s.1
 theorem C10_iter (s : Env × Tree) (h : RepairReachable s) (path : Path) (name : Nat) (ks : List Tree)
     (hat : s.2.at? path = some (.node (.element name) ks)) (env' : Env) (t' : Tree)
     (hcall : createMissingPrefixes s.1 s.2 path = .ok (env', t')) :
-    stripNs t' = stripNs s.2 ∧ namesWritable env' t' path = some true ∧
+    Repair.stripNs t' = Repair.stripNs s.2 ∧ namesWritable env' t' path = some true ∧
       createMissingPrefixes env' t' path = .ok (env', t') ∧ RepairReachable (env', t') := by
   obtain ⟨hok, hu⟩ := C10_iter_invariant s h
   have hsub : UniqueBelow (.node (.element name) ks) := by
@@ -503,7 +503,7 @@ theorem C10_iter (s : Env × Tree) (h : RepairReachable s) (path : Path) (name :
 theorem C10_iter_document (s : Env × Tree) (h : RepairReachable s) (path : Path) (doc : Tree)
     (hat : s.2.at? path = some doc) (hdoc : doc.value.isDocument = true) (env' : Env) (t' : Tree)
     (hcall : createMissingPrefixes s.1 s.2 path = .ok (env', t')) :
-    stripNs t' = stripNs s.2 ∧
+    Repair.stripNs t' = Repair.stripNs s.2 ∧
       ((∀ (i : Nat) (k : Tree), doc.kids[i]? = some k → k.value.isElement = false → k.kids = []) →
         namesWritable env' t' path = some true) ∧
       createMissingPrefixes env' t' path = .ok (env', t') ∧ RepairReachable (env', t') := by
@@ -586,7 +586,7 @@ theorem C10_repair_total (env : Env) (hok : EnvOk env) (t : Tree) (path : Path) 
     (ks : List Tree) (hat : t.at? path = some (.node (.element name) ks))
     (hu : UniqueBelow (.node (.element name) ks)) :
     ∃ env' t', createMissingPrefixes env t path = .ok (env', t') ∧
-      stripNs t' = stripNs t ∧ env'.names = env.names ∧ env'.namespaces = env.namespaces ∧
+      Repair.stripNs t' = Repair.stripNs t ∧ env'.names = env.names ∧ env'.namespaces = env.namespaces ∧
       namesWritable env' t' path = some true ∧
       createMissingPrefixes env' t' path = .ok (env', t') := by
   obtain ⟨env', t', h⟩ := (createMissingPrefixes_total env t path _ hat).2.2 (Or.inl rfl)
@@ -600,7 +600,7 @@ theorem C10_repair_document_total (env : Env) (hok : EnvOk env) (t : Tree) (path
     (hel : elementKidIndices doc.kids ≠ [])
     (hu : ∀ (i : Nat) (k : Tree), doc.kids[i]? = some k → k.value.isElement = true → UniqueBelow k) :
     ∃ env' t', createMissingPrefixes env t path = .ok (env', t') ∧
-      stripNs t' = stripNs t ∧ env'.names = env.names ∧ env'.namespaces = env.namespaces ∧
+      Repair.stripNs t' = Repair.stripNs t ∧ env'.names = env.names ∧ env'.namespaces = env.namespaces ∧
       createMissingPrefixes env' t' path = .ok (env', t') := by
   obtain ⟨env', t', h⟩ := (createMissingPrefixes_total env t path _ hat).2.2 (Or.inr ⟨hdoc, hel⟩)
   obtain ⟨f1, f2, f3, _⟩ := C10_repair_document_frame env hok t path doc hat hdoc hu env' t' h
@@ -736,7 +736,7 @@ theorem C10_repair_document_writable_kinds (env : Env) (hok : EnvOk env) (t : Tr
 theorem C10_repair_document_valid (env : Env) (hok : EnvOk env) (t : Tree) (hv : StructValid t)
     (hel : elementKidIndices t.kids ≠ []) :
     ∃ env' t', createMissingPrefixes env t [] = .ok (env', t') ∧
-      stripNs t' = stripNs t ∧ env'.names = env.names ∧ env'.namespaces = env.namespaces ∧
+      Repair.stripNs t' = Repair.stripNs t ∧ env'.names = env.names ∧ env'.namespaces = env.namespaces ∧
       namesWritable env' t' [] = some true ∧
       createMissingPrefixes env' t' [] = .ok (env', t') := by
   have hub := uniqueBelow_of_uniqueKids t hv.2.2.2
@@ -913,7 +913,7 @@ theorem C10_repair_roundtrip (env : Env) (t : Tree) (hr : Representable env t = 
     (h : createMissingPrefixes env t [] = .ok (env', t')) :
     namesWritable env' t' [] = some true ∧
     ∃ s p, toXmlString env' t' [] = .ok s ∧ parseString .document env' s = .ok p ∧ p.tree = t' ∧
-      p.env = env' ∧ deepEqual p.tree t' = true ∧ deepEqual p.tree t = true ∧ stripNs p.tree = stripNs t := by
+      p.env = env' ∧ deepEqual p.tree t' = true ∧ deepEqual p.tree t = true ∧ Repair.stripNs p.tree = Repair.stripNs t := by
   obtain ⟨e, hr', _⟩ := createMissingPrefixes_representable env t hr htab env' t' h
   have hfrag : RepresentableFragment env t = true := by
     simp only [Representable, Bool.and_eq_true] at hr; exact hr.1
@@ -1025,7 +1025,7 @@ theorem C10_repair_roundtrip_inner (env : Env) (t : Tree) (hr : RepresentableFra
     (h : createMissingPrefixes env t path = .ok (env', t')) :
     RepresentableFragment env' t' = true ∧ namesWritable env' t' path = some true ∧
     ∃ ks' s p X, t'.at? path = some (.node (.element name) ks') ∧
-      stripNs (.node (.element name) ks') = stripNs (.node (.element name) ks) ∧
+      Repair.stripNs (.node (.element name) ks') = Repair.stripNs (.node (.element name) ks) ∧
       toXmlString env' t' path = .ok s ∧
       standalone t' path = some (.node .document [.node (.element name) (nsLeaves X ++ ks')]) ∧
       parseString .document env' s = .ok p ∧
@@ -1140,5 +1140,108 @@ example :
   decide
 
 end RepairRoundTrip
+
+/-! ## END TO END: `create_missing_prefixes` as a step of an API history, then serialise, then parse
+
+`C10_repair_roundtrip` above is about the tree-level model on a `Representable` tree.  Props/C04.lean shows
+that the forest-level model (handles; what a history of API calls runs) refines it on every forest with the
+invariant (`C10_forest_repair_refines_tree_document`), that every reachable forest has the invariant
+(`C04_reach_ext`) and that `Representable` of a reachable tree is a condition on its values
+(`C01_reachable_representable`).  Composed (the two lemma families can be imported together since the
+helper names were made unique; Props/C04 comes in through Props/C01): -/
+
+section EndToEnd
+open XotModel.Repair
+
+/-- ⟦C10_reachable_repair_roundtrip⟧ **After `create_missing_prefixes(doc)` as a step of an API history
+    the document serialises and reparses deep-equal.**  `S` is the store after any extended history `cs`
+    from the empty store (well-kinded steps, consolidation never switched off), `r` a parentless tree of
+    it whose root is a document node and whose VALUES are in the XML domain for the tables of the store
+    (`envOK`, `valueOK` everywhere, distinct `xml:id`s, one top-level element and no top-level text) —
+    the names need NOT be writable —, and every registered name's namespace can be declared
+    (`nameTableOK`).  `S'` is the store after the history extended by `create_missing_prefixes(r)`.  Then
+    the call answers `Ok`, `S'` has the invariant, and the tree `r'` that `r` has become (same root
+    handle, in `r`'s place among the parentless trees, every old handle kept in document order, new
+    namespace nodes on fresh handles) is `Representable` for the tables of `S'`, every name is writable,
+    `to_string` succeeds and `parse` of the text gives back exactly `r'` erased — tables of `S'`
+    unchanged — which is `deep_equal` to the tree BEFORE the call and differs from it in namespace nodes
+    only. -/
+theorem C10_reachable_repair_roundtrip (env : Env) (cs : List Forest.XCall) (hw : ∀ c ∈ cs, c.wellKinded)
+    (S : Store) (hS : S = (⟨Forest.init, env⟩ : Store).xrun cs) (hoff : S.forest.everOff = false)
+    (r : HTree) (hr : r ∈ S.forest.roots) (hdoc : r.value.isDocument = true) (henv : envOK S.env = true)
+    (hval : r.erase.allNodes (fun v _ => valueOK S.env v) = true)
+    (hid : (xmlIdValues S.env r.erase).Nodup) (hone : singleRoot r.erase = true)
+    (htab : nameTableOK S.env = true)
+    (S' : Store) (hS' : S' = (⟨Forest.init, env⟩ : Store).xrun (cs ++ [.createMissingPrefixes r.handle])) :
+    ((Forest.XCall.createMissingPrefixes r.handle).run S).2 = .ok ∧ S'.forest.Inv ∧
+    ∃ r' : HTree, r'.handle = r.handle ∧
+      S'.forest.roots = S.forest.roots.map (fun y => if (y.pathOf r.handle).isSome then r' else y) ∧
+      S'.forest.rootOf? r.handle = some r' ∧
+      r'.handles.filter (· < S.forest.next) = r.handles ∧
+      createMissingPrefixes S.env r.erase [] = .ok (S'.env, r'.erase) ∧
+      Representable S'.env r'.erase = true ∧ namesWritable S'.env r'.erase [] = some true ∧
+      ∃ s p, toXmlString S'.env r'.erase [] = .ok s ∧ parseString .document S'.env s = .ok p ∧
+        p.tree = r'.erase ∧ p.env = S'.env ∧ deepEqual p.tree r.erase = true ∧
+        Repair.stripNs p.tree = Repair.stripNs r.erase := by
+  have hi' : S'.forest.Inv := by
+    rw [hS']
+    refine C04_reach_ext env _ (fun c hc => ?_)
+    rcases List.mem_append.mp hc with hc | hc
+    · exact hw c hc
+    · rw [List.mem_singleton.mp hc]; trivial
+  have hstep : S' = ⟨(S.forest.createMissingPrefixes S.env r.handle).1,
+      (S.forest.createMissingPrefixes S.env r.handle).2.1⟩ := by
+    rw [hS', hS]; simp [Store.xrun, List.foldl_append, Store.xstep, Forest.XCall.run]
+  subst hS
+  have hi := C04_reach_ext env cs hw
+  have hrep : Representable ((⟨Forest.init, env⟩ : Store).xrun cs).env r.erase = true := by
+    rw [(C01_reachable_representable env cs hw hoff r hr _).2]
+    simp [henv, hdoc, hval, hid, hone]
+  obtain ⟨h1, h2, hg, hd, _⟩ := Reach.root_located hi hr
+  obtain ⟨k, hk, hke⟩ := Reach.element_kid_of_singleRoot hone
+  obtain ⟨r', a1, a2, a3, a4, a5, a6, _, _⟩ := C10_forest_repair_refines_tree_document _ hi
+    ((⟨Forest.init, env⟩ : Store).xrun cs).env r.handle (by rw [hd]; exact hdoc) ⟨r, k, hg, hk, hke⟩ r h1 [] h2
+  obtain ⟨hwr, s, p, k1, k2, k3, k4, _, k6, k7⟩ := C10_repair_roundtrip _ r.erase hrep htab _ _ a2
+  have hrep' := (C10_repair_representable _ r.erase hrep htab _ _ a2).1
+  subst hstep
+  exact ⟨a1, hi', r', Reach.handle_of_pathOf_nil a4, a5, a3, a6, a2, hrep', hwr, s, p, k1, k2, k3, k4, k6, k7⟩
+
+/-! Non-vacuity, closed: the history `new_document`, `new_element(e)` with `e` in the namespace `urn:a`,
+    `append` — no prefix is declared for `urn:a`, the document is in the value-level domain and NOT
+    writable.  Every hypothesis holds by evaluation; after the step `create_missing_prefixes(doc)` the
+    tables have the new prefix `n0` and the document serialises to `<n0:e xmlns:n0="urn:a"/>`. -/
+
+def c10ReachEnv : Env :=
+  { namespaces := [[], xmlNamespaceUri, ['u','r','n',':','a']], prefixes := [[], ['x','m','l']],
+    names := [(['s','p','a','c','e'], 1), (['i','d'], 1), (['e'], 2)] }
+def c10ReachCalls : List Forest.XCall := [.newNode .document, .newNode (.element 2), .call (.append 0 1)]
+def c10ReachRoot : HTree := .node 0 .document [.node 1 (.element 2) []]
+
+example : (∀ c ∈ c10ReachCalls, c.wellKinded) ∧
+    ((⟨Forest.init, c10ReachEnv⟩ : Store).xrun c10ReachCalls).forest.everOff = false ∧
+    ((⟨Forest.init, c10ReachEnv⟩ : Store).xrun c10ReachCalls).forest.roots = [c10ReachRoot] ∧
+    c10ReachRoot.value.isDocument = true ∧ envOK c10ReachEnv = true ∧
+    c10ReachRoot.erase.allNodes (fun v _ => valueOK c10ReachEnv v) = true ∧
+    (xmlIdValues c10ReachEnv c10ReachRoot.erase).Nodup ∧ singleRoot c10ReachRoot.erase = true ∧
+    nameTableOK c10ReachEnv = true ∧ namesWritable c10ReachEnv c10ReachRoot.erase [] = some false := by
+  decide +kernel
+
+example :
+    let S' := (⟨Forest.init, c10ReachEnv⟩ : Store).xrun (c10ReachCalls ++ [.createMissingPrefixes 0])
+    S'.env.prefixes = [[], ['x','m','l'], ['n','0']] ∧
+    S'.forest.roots.map (fun r' => toXmlString S'.env r'.erase []) =
+      [.ok "<n0:e xmlns:n0=\"urn:a\"/>".toList] := by decide +kernel
+
+example : ∃ r' s p,
+    let S' := (⟨Forest.init, c10ReachEnv⟩ : Store).xrun (c10ReachCalls ++ [.createMissingPrefixes 0])
+    S'.forest.rootOf? 0 = some r' ∧ toXmlString S'.env r'.erase [] = .ok s ∧
+      parseString .document S'.env s = .ok p ∧ p.tree = r'.erase ∧ deepEqual p.tree c10ReachRoot.erase = true := by
+  obtain ⟨_, _, r', _, _, h3, _, _, _, _, s, p, k1, k2, k3, _, k5, _⟩ :=
+    C10_reachable_repair_roundtrip c10ReachEnv c10ReachCalls (by decide) _ rfl (by decide +kernel)
+      c10ReachRoot (by decide +kernel) rfl (by decide +kernel) (by decide +kernel) (by decide +kernel)
+      (by decide +kernel) (by decide +kernel) _ rfl
+  exact ⟨r', s, p, h3, k1, k2, k3, k5⟩
+
+end EndToEnd
 
 end XotModel.Props
